@@ -150,6 +150,15 @@ theorem l21None_block (cplx : Bool) (bs : List (List ℝ)) :
 
 end realblocks
 
+/-- the non-separable Huber norm (evaluated by the code through the *squared* norm) is the Huber
+    function of the ℓ² norm -/
+theorem huberNonsep_eq (cplx : Bool) (delta : ℝ) (x : Arg ℝ) :
+    huberNonsep cplx delta x = huber1 delta (l2 cplx x) := by
+  have hs := sum_sqmags_nonneg cplx x.flat
+  simp only [huberNonsep, huber1, l2, HasSqrt.sqrt]
+  rw [Real.mul_self_sqrt hs]
+  rfl
+
 /-! ### indicators -/
 section ind
 variable {K : Type} [Field K] [LinearOrder K] [IsStrictOrderedRing K]
